@@ -2935,6 +2935,420 @@ theorem c15_waiting_for_silent_client_blocks :
       (s.streams.map (·.stopClosed)) = [true]) := by
   decide
 
+
+/-! ### the whole statement in one proposition (round 7) -/
+
+/-- `Quiet` for a code variant -/
+def QuietV (v : Variant) (caps : Caps) (s : St) : Prop :=
+  step v caps s .rStep = none ∧ step v caps s .rLeave = none ∧
+  step v caps s .aStep = none ∧
+  step v caps s .wOut = none ∧ step v caps s .wClosing = none ∧
+  step v caps s .wOutFail = none ∧
+  (∀ k, step v caps s (.stop k) = none) ∧
+  (∀ k, step v caps s (.fStep k 0) = none ∧ step v caps s (.fDrop k 0) = none)
+
+/-- **the property, all clauses, for a code variant**: `C15_full` (no crash; order per channel; complete at
+the normal close; tear-down when the client has gone) and, for every first message, schedule and
+(positive) capacities —
+5. whatever channels a handler hands back: a nil output channel has no forwarder and its request is
+   refused (nobody of onet's ever waits on something that cannot happen);
+6. nothing is stuck: when none of onet's goroutines can move, every forwarder has ended or waits, with
+   empty hands, on a real channel its service has not closed; once the write loop has been left the
+   socket is closed, reader and adapter have ended, every service has been told to stop;
+7. the service ends the stream: if, at such a moment, some request was served and every channel has been
+   closed by its service, the write loop has been left and a client that is still there has been sent
+   the normal close;
+8. other clients: any number of connections on one server, any interleaving — nobody crashes and each
+   connection is in the state its own actions alone lead to. -/
+def C15_statement (v : Variant) : Prop :=
+  C15_full v ∧
+  (∀ (caps : Caps) (m₀ : CMsg) (sched : List Act), 0 < caps.inCap → 0 < caps.outCap →
+    let s := run v caps (init m₀) sched
+    (∀ st ∈ s.streams, st.noOut = true → st.fwd = .done ∧ st.refused = true) ∧
+    (QuietV v caps s →
+      (∀ st ∈ s.streams, st.fwd = .done ∨ (st.fwd = .recv ∧ st.chanClosed = false ∧ st.noOut = false)) ∧
+      (s.wdone = true → s.wsClosed = true ∧ s.rpc = .done ∧ s.adone = true ∧ s.stopAll = true ∧
+        ∀ st ∈ s.streams, st.stopClosed = true) ∧
+      ((∃ st ∈ s.streams, st.refused = false) → (∀ st ∈ s.streams, st.chanClosed = true) →
+        s.wdone = true ∧ (s.cGone = false → Frame.closeNormal ∈ s.s2c)))) ∧
+  (∀ (caps : Caps) (ms : List CMsg) (sched : List (Nat × Act)),
+    let y := srvRun v caps ⟨ms.map init⟩ sched
+    y.panicked = false ∧ ∀ i, y.conns[i]? = (ms[i]?).map (fun m => run v caps (init m) (proj i sched)))
+
+/-- **the whole statement holds for the code as it is** -/
+theorem c15_statement_fixed : C15_statement .fixed := by
+  refine ⟨c15_full_fixed, ?_, fun caps ms sched => c15_other_clients_unaffected caps ms sched⟩
+  intro caps m₀ sched hin hout s
+  refine ⟨(c15_no_forwarder_on_nil_channel caps m₀ sched).1, fun hq => ?_⟩
+  have hq' : Quiet caps s := hq
+  obtain ⟨hw1, _⟩ := c15_waiting_forwarders_wait_on_real_channels caps hin hout m₀ sched hq'
+  obtain ⟨_, _, _, _, hst, htear⟩ := c15_nothing_stuck caps hin hout m₀ sched hq'
+  refine ⟨hw1, fun hw => ?_, fun hex hcl => ?_⟩
+  · obtain ⟨a, b, c, d⟩ := htear hw
+    exact ⟨a, b, c, d, fun st hm => hst st hm (Or.inl d)⟩
+  · obtain ⟨a, _, _, _, _, f⟩ := c15_service_ends_stream caps hin hout m₀ sched hq' hex hcl
+    exact ⟨a, fun hc => (f hc).1⟩
+
+/-- **… and fails without the nil-channel repair by the nil-channel clause itself** (not only by the crash on
+a nil stop channel, `c15_full_fails_nil_unsafe`): a handler that hands back a nil output channel gets a
+forwarder that waits on it for ever -/
+theorem c15_statement_fails_nil_unsafe_by_stuck_forwarder :
+    ¬ (∀ (caps : Caps) (m₀ : CMsg) (sched : List Act), 0 < caps.inCap → 0 < caps.outCap →
+        ∀ st ∈ (run .nilUnsafe caps (init m₀) sched).streams, st.noOut = true → st.fwd = .done ∧ st.refused = true) := by
+  intro h
+  have := h caps10 .noout [.aStep] (by decide) (by decide)
+  revert this
+  decide
+
+theorem c15_statement_fails_nil_unsafe : ¬ C15_statement .nilUnsafe := fun h => c15_full_fails_nil_unsafe h.1
+
+theorem c15_statement_fails_old : ¬ C15_statement .old := fun h => c15_full_fails_old h.1
+
+/-! ### the client's side: what the read loop of onet's client hands to its caller -/
+
+theorem closeOut_fr (s : St) : (closeOut s).s2c = s.s2c ∧ (closeOut s).wdone = s.wdone := by
+  unfold closeOut; split <;> exact ⟨rfl, rfl⟩
+theorem fwdExit_fr (v : Variant) (s : St) : (fwdExit v s).s2c = s.s2c ∧ (fwdExit v s).wdone = s.wdone := by
+  unfold fwdExit
+  split
+  · exact ⟨rfl, rfl⟩
+  · split
+    · exact ⟨rfl, rfl⟩
+    · exact closeOut_fr _
+theorem adapterFail_fr (v : Variant) (s : St) : (adapterFail v s).s2c = s.s2c ∧ (adapterFail v s).wdone = s.wdone := by
+  unfold adapterFail
+  split
+  · exact ⟨rfl, rfl⟩
+  · exact closeOut_fr s
+theorem newStream_fr (v : Variant) (s : St) (t : Stream) : (newStream v s t).s2c = s.s2c ∧ (newStream v s t).wdone = s.wdone := by
+  unfold newStream
+  split
+  · split <;> exact ⟨rfl, rfl⟩
+  · exact ⟨rfl, rfl⟩
+theorem nilOut_fr (v : Variant) (s : St) : (nilOut v s).s2c = s.s2c ∧ (nilOut v s).wdone = s.wdone := by
+  unfold nilOut
+  split
+  · exact adapterFail_fr _ _
+  · exact newStream_fr _ _ _
+theorem stopChan_fr (v : Variant) (s : St) (k : Nat) (st : Stream) : (stopChan v s k st).s2c = s.s2c ∧ (stopChan v s k st).wdone = s.wdone := by
+  unfold stopChan; split <;> exact ⟨rfl, rfl⟩
+theorem extraFwd_fr (v : Variant) (s : St) (j : Nat) (st : Stream) : (extraFwd v s j st).s2c = s.s2c ∧ (extraFwd v s j st).wdone = s.wdone := by
+  unfold extraFwd; split <;> exact ⟨rfl, rfl⟩
+theorem readerExit_fr (v : Variant) (s : St) : (readerExit v s).s2c = s.s2c ∧ (readerExit v s).wdone = s.wdone := by
+  unfold readerExit; split <;> exact ⟨rfl, rfl⟩
+
+/-- what a step does to the frames on the wire: nothing, or — the write loop not yet left — one more data
+frame, or one close frame with which the write loop is left -/
+def FrStep (s s' : St) : Prop :=
+  (s'.s2c = s.s2c ∧ s'.wdone = s.wdone) ∨
+  (s.wdone = false ∧ ∃ f, s'.s2c = s.s2c ++ [f] ∧ s'.wdone = !f.isData)
+
+theorem writerLeave_fr (v : Variant) (b : Bool) (f : Frame) (s : St) :
+    (writerLeave v b f s).s2c = s.s2c ++ [f] ∧ (writerLeave v b f s).wdone = true := by
+  unfold writerLeave
+  simp only
+  split
+  · split <;> exact ⟨rfl, rfl⟩
+  · exact ⟨rfl, rfl⟩
+
+theorem step_frames (v : Variant) (caps : Caps) (s s' : St) (a : Act) (h : step v caps s a = some s') :
+    FrStep s s' := by
+  unfold step at h
+  split at h
+  · simp at h
+  cases a with
+  | cSend m => simp only at h; split at h <;> simp at h; subst h; exact Or.inl ⟨rfl, rfl⟩
+  | cLeave => simp only at h; split at h <;> simp at h; subst h; exact Or.inl ⟨rfl, rfl⟩
+  | rStep =>
+    simp only at h
+    repeat' split at h
+    all_goals first
+      | (simp at h; done)
+      | (simp only [Option.some.injEq] at h; subst h; first | exact Or.inl ⟨rfl, rfl⟩ | exact Or.inl (readerExit_fr _ _))
+  | rLeave =>
+    simp only at h
+    repeat' split at h
+    all_goals first
+      | (simp at h; done)
+      | (simp only [Option.some.injEq] at h; subst h; first | exact Or.inl ⟨rfl, rfl⟩ | exact Or.inl (readerExit_fr _ _))
+  | aStep =>
+    simp only at h
+    repeat' split at h
+    all_goals first
+      | (simp at h; done)
+      | (simp only [Option.some.injEq] at h; subst h
+         first | exact Or.inl ⟨rfl, rfl⟩ | exact Or.inl (adapterFail_fr _ _) | exact Or.inl (newStream_fr _ _ _)
+               | exact Or.inl (nilOut_fr _ _) | exact Or.inl (extraFwd_fr _ _ _ _))
+  | emit k f x =>
+    simp only at h
+    repeat' split at h
+    all_goals first
+      | (simp at h; done)
+      | (simp only [Option.some.injEq] at h; subst h; exact Or.inl ⟨rfl, rfl⟩)
+  | emitBad k f =>
+    simp only at h
+    repeat' split at h
+    all_goals first
+      | (simp at h; done)
+      | (simp only [Option.some.injEq] at h; subst h; first | exact Or.inl ⟨rfl, rfl⟩ | exact Or.inl (fwdExit_fr _ _))
+  | svcClose k =>
+    simp only at h
+    repeat' split at h
+    all_goals first
+      | (simp at h; done)
+      | (simp only [Option.some.injEq] at h; subst h; exact Or.inl ⟨rfl, rfl⟩)
+  | fStep k f =>
+    simp only at h
+    repeat' split at h
+    all_goals first
+      | (simp at h; done)
+      | (simp only [Option.some.injEq] at h; subst h; first | exact Or.inl ⟨rfl, rfl⟩ | exact Or.inl (fwdExit_fr _ _))
+  | fDrop k f =>
+    simp only at h
+    repeat' split at h
+    all_goals first
+      | (simp at h; done)
+      | (simp only [Option.some.injEq] at h; subst h; first | exact Or.inl ⟨rfl, rfl⟩ | exact Or.inl (fwdExit_fr _ _))
+  | stop k =>
+    simp only at h
+    repeat' split at h
+    all_goals first
+      | (simp at h; done)
+      | (simp only [Option.some.injEq] at h; subst h; first | exact Or.inl ⟨rfl, rfl⟩ | exact Or.inl (stopChan_fr _ _ _ _))
+  | wOut =>
+    simp only at h
+    split at h
+    · simp at h
+    · rename_i hw
+      have hw' : s.wdone = false := by simpa using hw
+      split at h
+      · simp only [Option.some.injEq] at h; subst h
+        exact Or.inr ⟨hw', _, rfl, by simp [Frame.isData, hw']⟩
+      · split at h
+        · simp only [Option.some.injEq] at h; subst h
+          exact Or.inr ⟨hw', _, (writerLeave_fr _ _ _ _).1, by simp [Frame.isData, (writerLeave_fr _ _ _ _).2]⟩
+        · simp at h
+  | wClosing =>
+    simp only at h
+    split at h
+    · simp at h
+    · rename_i hw
+      have hw' : s.wdone = false := by simpa using hw
+      split at h
+      · simp only [Option.some.injEq] at h; subst h
+        exact Or.inr ⟨hw', _, (writerLeave_fr _ _ _ _).1, by simp [Frame.isData, (writerLeave_fr _ _ _ _).2]⟩
+      · simp at h
+  | wOutFail =>
+    simp only at h
+    split at h
+    · simp at h
+    · rename_i hw
+      have hw' : s.wdone = false := by simpa using hw
+      split at h
+      · split at h
+        · simp only [Option.some.injEq] at h; subst h
+          exact Or.inr ⟨hw', _, (writerLeave_fr _ _ _ _).1, by simp [Frame.isData, (writerLeave_fr _ _ _ _).2]⟩
+        · simp at h
+      · simp at h
+
+
+/-- the frames on the wire: data frames and — exactly when the write loop has been left — one close frame
+behind them, nothing after it (any code variant) -/
+def WellFramed (s : St) : Prop :=
+  (s.wdone = false → ∀ f ∈ s.s2c, f.isData = true) ∧
+  (s.wdone = true → ∃ ds f, s.s2c = ds ++ [f] ∧ (∀ g ∈ ds, g.isData = true) ∧ f.isData = false)
+
+theorem wellFramed_step {s s' : St} (h : FrStep s s') (hw : WellFramed s) : WellFramed s' := by
+  rcases h with ⟨h1, h2⟩ | ⟨h0, f, h1, h2⟩
+  · unfold WellFramed; rw [h1, h2]; exact hw
+  · have hall := hw.1 h0
+    cases hf : f.isData with
+    | true =>
+      rw [hf] at h2
+      refine ⟨fun _ g hg => ?_, fun hc => ?_⟩
+      · rw [h1] at hg
+        rcases List.mem_append.mp hg with hg | hg
+        · exact hall g hg
+        · simp at hg; rw [hg]; exact hf
+      · rw [h2] at hc; simp at hc
+    | false =>
+      rw [hf] at h2
+      refine ⟨fun hc => ?_, fun _ => ⟨s.s2c, f, h1, hall, hf⟩⟩
+      rw [h2] at hc; simp at hc
+
+theorem wellFramed_run (v : Variant) (caps : Caps) (s : St) (hw : WellFramed s) (sched : List Act) :
+    WellFramed (run v caps s sched) := by
+  induction sched generalizing s with
+  | nil => exact hw
+  | cons a as ih =>
+    simp only [run]
+    split
+    · rename_i s' hs; exact ih s' (wellFramed_step (step_frames v caps s s' a hs) hw)
+    · exact ih s hw
+
+theorem wellFramed_init (m : CMsg) : WellFramed (init m) := by
+  refine ⟨fun _ f hf => ?_, fun h => ?_⟩ <;> simp [init] at *
+
+theorem clientLoop_all_data : ∀ (fs : List Frame), (∀ f ∈ fs, f.isData = true) →
+    (clientLoop fs).2 = .waiting ∧ ∀ k, outqK k (clientLoop fs).1 = dataOfK k fs
+  | [], _ => ⟨rfl, fun _ => rfl⟩
+  | .data j v :: rest, h => by
+    obtain ⟨h1, h2⟩ := clientLoop_all_data rest (fun f hf => h f (List.mem_cons_of_mem _ hf))
+    refine ⟨h1, fun k => ?_⟩
+    simp only [clientLoop, dataOfK, outqK, List.filter_cons]
+    have := h2 k
+    simp only [outqK] at this
+    by_cases hj : j = k
+    · simp [hj, this]
+    · have hb : (j == k) = false := by simpa using hj
+      simp [hj, hb, this]
+  | .closeNormal :: _, h => by have := h _ List.mem_cons_self; simp [Frame.isData] at this
+  | .closeError :: _, h => by have := h _ List.mem_cons_self; simp [Frame.isData] at this
+
+theorem clientLoop_closed : ∀ (ds : List Frame) (f : Frame), (∀ g ∈ ds, g.isData = true) → f.isData = false →
+    (clientLoop (ds ++ [f])).2 = .closed (f == .closeNormal) ∧
+    ∀ k, outqK k (clientLoop (ds ++ [f])).1 = dataOfK k (ds ++ [f])
+  | [], f, _, hf => by
+    cases f with
+    | data k v => simp [Frame.isData] at hf
+    | closeNormal => exact ⟨rfl, fun _ => rfl⟩
+    | closeError => exact ⟨rfl, fun _ => rfl⟩
+  | .data j v :: rest, f, h, hf => by
+    obtain ⟨h1, h2⟩ := clientLoop_closed rest f (fun g hg => h g (List.mem_cons_of_mem _ hg)) hf
+    refine ⟨h1, fun k => ?_⟩
+    have := h2 k
+    simp only [outqK] at this
+    simp only [List.cons_append, clientLoop, dataOfK, outqK, List.filter_cons]
+    by_cases hj : j = k
+    · simp [hj, this]
+    · have hb : (j == k) = false := by simpa using hj
+      simp [hj, hb, this]
+  | .closeNormal :: _, _, h, _ => by have := h _ List.mem_cons_self; simp [Frame.isData] at this
+  | .closeError :: _, _, h, _ => by have := h _ List.mem_cons_self; simp [Frame.isData] at this
+
+/-- **the read loop, whatever the server does**: for every list of frames — any server behaviour — the
+loop hands its caller exactly the data frames that precede the first close frame, in their order, one per
+`ReadMessage`, and ends at that close frame with its code (the caller is never handed anything that was
+written behind a close frame, never the same frame twice, never out of order) -/
+theorem c15_client_loop_any_server (fs : List Frame) :
+    (clientLoop fs).1 = (fs.takeWhile Frame.isData).filterMap (fun f => match f with | .data k v => some (k, v) | _ => none) ∧
+    ((clientLoop fs).2 = .waiting ↔ ∀ f ∈ fs, f.isData = true) ∧
+    (∀ b, (clientLoop fs).2 = .closed b ↔ ∃ ds rest, fs = ds ++ (if b then Frame.closeNormal else Frame.closeError) :: rest ∧
+      ∀ g ∈ ds, g.isData = true) ∧
+    clientReads fs ≤ fs.length := by
+  induction fs with
+  | nil => refine ⟨rfl, by simp [clientLoop], fun b => ?_, by simp [clientReads, clientLoop]⟩
+           simp [clientLoop]
+  | cons f rest ih =>
+    obtain ⟨i1, i2, i3, i4⟩ := ih
+    cases f with
+    | data k v =>
+      refine ⟨by simp [clientLoop, Frame.isData, List.takeWhile_cons, i1], ?_, fun b => ?_, ?_⟩
+      · simp only [clientLoop, i2, List.mem_cons, forall_eq_or_imp, Frame.isData, true_and]
+      · simp only [clientLoop, i3 b]
+        constructor
+        · rintro ⟨ds, r, h1, h2⟩
+          exact ⟨.data k v :: ds, r, by rw [h1]; rfl, fun g hg => by
+            rcases List.mem_cons.mp hg with rfl | hg
+            · rfl
+            · exact h2 g hg⟩
+        · rintro ⟨ds, r, h1, h2⟩
+          cases ds with
+          | nil => simp at h1; split at h1 <;> simp at h1
+          | cons d ds' =>
+            simp only [List.cons_append, List.cons.injEq] at h1
+            exact ⟨ds', r, h1.2, fun g hg => h2 g (List.mem_cons_of_mem _ hg)⟩
+      · simp only [clientReads, clientLoop, List.length_cons] at i4 ⊢; omega
+    | closeNormal =>
+      refine ⟨by simp [clientLoop, Frame.isData], by simp [clientLoop, Frame.isData], fun b => ?_,
+        by simp [clientReads, clientLoop]⟩
+      cases b with
+      | true => simp only [clientLoop, if_true, true_iff]; exact ⟨[], rest, rfl, by simp⟩
+      | false =>
+        simp only [clientLoop, CEnd.closed.injEq, Bool.true_eq_false, false_iff, Bool.false_eq_true, if_false]
+        rintro ⟨ds, r, h1, h2⟩
+        cases ds with
+        | nil => simp at h1
+        | cons d ds' =>
+          simp only [List.cons_append, List.cons.injEq] at h1
+          have := h2 d List.mem_cons_self
+          rw [← h1.1] at this; simp [Frame.isData] at this
+    | closeError =>
+      refine ⟨by simp [clientLoop, Frame.isData], by simp [clientLoop, Frame.isData], fun b => ?_,
+        by simp [clientReads, clientLoop]⟩
+      cases b with
+      | false => simp only [clientLoop, Bool.false_eq_true, if_false, true_iff]; exact ⟨[], rest, rfl, by simp⟩
+      | true =>
+        simp only [clientLoop, CEnd.closed.injEq, Bool.false_eq_true, false_iff, if_true]
+        rintro ⟨ds, r, h1, h2⟩
+        cases ds with
+        | nil => simp at h1
+        | cons d ds' =>
+          simp only [List.cons_append, List.cons.injEq] at h1
+          have := h2 d List.mem_cons_self
+          rw [← h1.1] at this; simp [Frame.isData] at this
+
+/-- **end to end — the client of onet's own library receives every message the service emitted, in emission
+order, then the normal close**: for the code as it is, every first message, every schedule of client,
+service and goroutines, all capacities.  `r` is what the client's read loop has been handed from the frames
+written so far.  (1) per channel the values handed to the caller are a prefix, in order, of what the service
+emitted; (2) the loop has ended iff the server's write loop has been left — a client that reads never waits
+for a server that has gone, nor is it cut off while the server still writes; (3) when it ended with the normal
+close (no bad message on the stream) the caller has been handed *everything* every channel emitted. -/
+theorem c15_client_receives_in_order_and_complete (caps : Caps) (m₀ : CMsg) (sched : List Act) :
+    let s := run .fixed caps (init m₀) sched
+    let r := clientLoop s.s2c
+    (s.cGone = false → ∀ (k : Nat) st, s.streams[k]? = some st → outqK k r.1 <+: st.emitted) ∧
+    (r.2 = .waiting ↔ s.wdone = false) ∧
+    (s.cGone = false → s.ended = false → r.2 = .closed true →
+      ∀ (k : Nat) st, s.streams[k]? = some st → outqK k r.1 = st.emitted) := by
+  intro s r
+  have hW : WellFramed s := wellFramed_run .fixed caps _ (wellFramed_init m₀) sched
+  have hval : ∀ k, outqK k r.1 = dataOfK k s.s2c := by
+    intro k
+    cases hw : s.wdone with
+    | false => exact (clientLoop_all_data s.s2c (hW.1 hw)).2 k
+    | true =>
+      obtain ⟨ds, f, h1, h2, h3⟩ := hW.2 hw
+      have := (clientLoop_closed ds f h2 h3).2 k
+      simp only [r, h1]; exact this
+  have hord := c15_order_per_channel caps m₀ sched
+  refine ⟨fun hc k st hk => ?_, ?_, fun hc he hr k st hk => ?_⟩
+  · rw [hval k]
+    have := hord hc k st hk
+    exact List.IsPrefix.trans ⟨outqK k s.outq ++ heldOf st.fwd, by rw [List.append_assoc]⟩ this
+  · cases hw : s.wdone with
+    | false => simp [r, (clientLoop_all_data s.s2c (hW.1 hw)).1]
+    | true =>
+      obtain ⟨ds, f, h1, h2, h3⟩ := hW.2 hw
+      simp [r, h1, (clientLoop_closed ds f h2 h3).1]
+  · rw [hval k]
+    have hcn : Frame.closeNormal ∈ s.s2c := by
+      cases hw : s.wdone with
+      | false => rw [(clientLoop_all_data s.s2c (hW.1 hw)).1] at hr; cases hr
+      | true =>
+        obtain ⟨ds, f, h1, h2, h3⟩ := hW.2 hw
+        have hr' : (clientLoop (ds ++ [f])).2 = .closed true := by rw [← h1]; exact hr
+        rw [(clientLoop_closed ds f h2 h3).1] at hr'
+        simp only [CEnd.closed.injEq, beq_iff_eq] at hr'
+        rw [h1, hr']; simp
+    exact (c15_complete_at_normal_close caps m₀ sched hc he hcn k st hk).symm
+
+/-- non-vacuity: three values, the service closes, the client's loop has been handed all three and the
+normal close; and a server that gives up (client message that does not decode … then the client drops) -/
+example :
+    let s := run .fixed caps10 (init .fresh)
+      [.aStep, .emit 0 0 1, .fStep 0 0, .emit 0 0 2, .fStep 0 0, .wOut, .emit 0 0 3, .fStep 0 0, .svcClose 0, .fStep 0 0,
+       .wOut, .wOut, .wOut]
+    clientLoop s.s2c = ([(0, 1), (0, 2), (0, 3)], .closed true) ∧ clientReads s.s2c = 4 := by decide
+
+/-- what the frame discipline excludes: a write loop that goes on after its close frame (or writes the close
+twice) — the caller is handed neither the value behind the close nor a second close -/
+theorem c15_client_loop_stops_at_the_first_close :
+    clientLoop [.data 0 1, .closeNormal, .data 0 2, .closeNormal] = ([(0, 1)], .closed true) ∧
+    clientLoop [.data 0 1, .closeError, .data 0 2] = ([(0, 1)], .closed false) ∧
+    clientLoop [.data 0 1, .data 1 7] = ([(0, 1), (1, 7)], .waiting) := by decide
+
 /-! ### the code regions the model stands for
 Regenerated from /repo's source on every run (`harness/cmd/astfacts` → `OnetVerif/Shapes.lean`): the
 calls that matter for synchronisation and data flow, the lock regions and (for decision logic) the
